@@ -7,7 +7,7 @@ NS_LIMIT = 2_000_000_000
 
 
 def judge(ctx, proto, job, r):
-    key = [proto, [(m["exp"], m["buf"]) for m in job["msgs"]]]
+    key = [proto, [(m.get("exp"), m["buf"], m.get("filter")) for m in job["msgs"]]]
     ctx.count(key, nontrivial=fuzzrun.nontrivial(r))
     if r.get("skipped"):
         return
@@ -48,8 +48,7 @@ def check(ctx):
                         "allocation bound: linear in the datagram's octets per template field already received; TotalAlloc deltas are coarse",
                         "time bound is three orders of magnitude above the normal cost (microseconds)"]
     n = 200000 if thorough else 8000
-    for proto in ("ipfix", "v9"):
-        pairs = fuzzrun.flow(ctx, proto, thorough, n, stride=1 if thorough else 3)
+    for proto, pairs in fuzzrun.all_protocols(ctx, thorough, n, True, 1 if thorough else 3):
         for job, r in pairs:
             judge(ctx, proto, job, r)
         sample(ctx, proto, pairs)
